@@ -276,6 +276,9 @@ fn gen_file(rng: &mut Rng, spaces: bool) -> Vec<u8> {
             t = t.replace(' ', "");
         }
         f.push_str(&t);
+        if rng.chance(1, 8) {
+            f.push('\r'); // a carriage return that belongs to the text (e.g. "…\r" without "\n", or "\r\r\n")
+        }
         let last = i + 1 == nlines;
         match rng.below(if last { 4 } else { 3 }) {
             0 => f.push_str("\r\n"),
@@ -438,6 +441,9 @@ pub fn run(args: &Args) {
             (b"\r\n".to_vec(), "C", false, true, "no"),
             ("東京都に行った。京都に行った。\n\n".as_bytes().to_vec(), "A", false, true, "yes"),
             (b"".to_vec(), "C", false, false, "yes"),
+            ("東京都\r".as_bytes().to_vec(), "C", true, false, "no"),
+            ("東京都\r".as_bytes().to_vec(), "C", false, false, "yes"),
+            (b"a\r\r\nb\r".to_vec(), "C", true, false, "no"),
         ];
         // directed: what the path-rewrite plugins join (numerals, katakana runs) must come out the same in every output format
         for t in ["123円\n", "1,000.5円に2024年\n", "アイアイウ\n", "東京都に12.5行った。京都に3,000行った\n", "二千五百万と六三四\n"] {
